@@ -680,12 +680,17 @@ func (g *wgen) genStruct() {
 		}
 		req = nreq
 	}
-	if extPkg == "" && len(fields) > 0 && fields[0] != "*" && g.o.Allow["ext"] && g.want("struct-unselected-field-of-other-package", "unselfield", 40) {
-		// one more field that is NOT in the field list; its type comes from a package nothing
-		// else in the configuration mentions
+	if extPkg == "" && g.o.Allow["ext"] && g.want("struct-unselected-field-of-other-package", "unselfield", 40) {
+		// one more field that is NOT injected (not in the field list, or tagged wire:"-" under
+		// "*", or any field when no name is given); its type comes from a package nothing else
+		// in the configuration mentions
 		g.wantExtF = true // the package is added to the case at the very end (nothing else may pick it)
 		ft := g.ptrTo(g.addType(Type{Kind: KStruct, Name: g.extTypeName("extf"), Pkg: "extf"}))
-		s.Fields = append(s.Fields, Field{Name: "FX", Type: ft})
+		fx := Field{Name: "FX", Type: ft}
+		if len(fields) > 0 && fields[0] == "*" {
+			fx.Tag = `wire:"-"`
+		}
+		s.Fields = append(s.Fields, fx)
 	}
 	sid := g.addType(s)
 	pid := g.ptrTo(sid)
